@@ -388,18 +388,69 @@ func init() {
 	// ---------------- CBOR codec (opaque) ----------------
 	for _, nm := range []string{"github.com/fxamacker/cbor/v2.NewDecoder", "github.com/fxamacker/cbor/v2.NewEncoder"} {
 		nm := nm
-		reg(nm, nm+": returns a new, non-nil codec object", func(fr *Frame, st *State, callee *ssa.Function, args []*Val, pos token.Pos, resTy types.Type) *Val {
-			return term(fr.u.allocRef(st, "cbor"), resTy)
+		reg(nm, nm+": returns a new, non-nil codec object; a decoder made this way uses the default options (unknown fields are ignored: strictdec is false)", func(fr *Frame, st *State, callee *ssa.Function, args []*Val, pos token.Pos, resTy types.Type) *Val {
+			r := fr.u.allocRef(st, "cbor")
+			if strings.HasSuffix(nm, "NewDecoder") {
+				fr.u.fact(not(app(fr.u.fn("cbor_strictdec", []string{"Ref"}, "Bool"), r)))
+			}
+			return term(r, resTy)
 		})
 	}
-	regI("(cbor.DecMode).NewDecoder", "cbor.DecMode.NewDecoder(r): returns a new, non-nil decoder", func(fr *Frame, st *State, recv *Val, args []*Val, pos token.Pos, resTy types.Type) *Val {
-		return term(fr.u.allocRef(st, "cbor"), resTy)
+	regI("(cbor.DecMode).NewDecoder", "cbor.DecMode.NewDecoder(r): returns a new, non-nil decoder that rejects unknown fields exactly when the mode does (strictdec)", func(fr *Frame, st *State, recv *Val, args []*Val, pos token.Pos, resTy types.Type) *Val {
+		u := fr.u
+		r := u.allocRef(st, "cbor")
+		u.fact(eq(app(u.fn("cbor_strictdec", []string{"Ref"}, "Bool"), r), app(u.fn("cbor_strictmode", []string{"Iface"}, "Bool"), fr.asTerm(recv, st))))
+		return term(r, resTy)
 	})
 	reg("(github.com/fxamacker/cbor/v2.DecOptions).DecMode", "cbor.DecOptions.DecMode(): for the constant, valid options used by the SDK it returns a non-nil mode and a nil error", func(fr *Frame, st *State, callee *ssa.Function, args []*Val, pos token.Pos, resTy types.Type) *Val {
 		u := fr.u
 		tup := resTy.(*types.Tuple)
 		dm := u.w.newConst("decmode", "Iface")
 		u.fact(fmt.Sprintf("(distinct (ityp %s) T_nil)", dm))
+		// the mode rejects unknown fields exactly when the options ask for it (ExtraDecErrorUnknownField == 1). The
+		// options are a composite literal of an external struct type: its field is read off the SSA (one constant
+		// store into the literal's ExtraReturnErrors field); anything else leaves the strictness unconstrained.
+		if stt, ok := callee.Signature.Recv().Type().Underlying().(*types.Struct); ok && fr.curInstr != nil {
+			fi := -1
+			for i := 0; i < stt.NumFields(); i++ {
+				if stt.Field(i).Name() == "ExtraReturnErrors" {
+					fi = i
+				}
+			}
+			if ci, ok := fr.curInstr.(ssa.CallInstruction); ok && fi >= 0 && len(ci.Common().Args) > 0 {
+				if ld, ok := ci.Common().Args[0].(*ssa.UnOp); ok && ld.Op == token.MUL {
+					if al, ok := ld.X.(*ssa.Alloc); ok && al.Referrers() != nil {
+						stores, strict, known := 0, false, true
+						for _, r := range *al.Referrers() {
+							fa, ok := r.(*ssa.FieldAddr)
+							if !ok || fa.Field != fi || fa.Referrers() == nil {
+								continue
+							}
+							for _, r2 := range *fa.Referrers() {
+								if sto, ok := r2.(*ssa.Store); ok && sto.Addr == ssa.Value(fa) {
+									stores++
+									if c, ok := sto.Val.(*ssa.Const); ok && c.Value != nil {
+										strict = c.Uint64()&1 != 0
+									} else {
+										known = false
+									}
+								} else {
+									known = false
+								}
+							}
+						}
+						if known && stores <= 1 {
+							sm := app(u.fn("cbor_strictmode", []string{"Iface"}, "Bool"), dm)
+							if strict {
+								u.fact(sm)
+							} else {
+								u.fact(not(sm))
+							}
+						}
+					}
+				}
+			}
+		}
 		u.assume["cbor.DecOptions{ExtraReturnErrors: ExtraDecErrorUnknownField}.DecMode() succeeds (constant, valid options)"] = true
 		return &Val{K: vTuple, Elems: []*Val{term(dm, tup.At(0).Type()), term("(mkIface T_nil boxnil)", tup.At(1).Type())}}
 	})
@@ -510,14 +561,18 @@ func init() {
 		u.qsorts[j] = "Int"
 		u.fact(fmt.Sprintf("(forall ((%s Int)) (=> (or (< %s (soff %s)) (>= %s (+ (soff %s) (slen %s)))) (= (select %s %s) (select (select %s %s) %s))))", j, j, s, j, s, s, arr, j, old, data, j))
 		st.heap[hk] = u.nameHeap(hk, fmt.Sprintf("(store %s %s %s)", old, data, arr))
-		if ei := u.enumTag[s]; ei != nil && fr.curInstr != nil && !(ei.fr == fr && ei.fr.loopBody[ei.h][fr.curInstr.Block()]) && ei.fr == fr {
+		if ei := u.enumTag[s]; ei != nil && fr.curInstr != nil && !(ei.fr == fr && ei.fr.loopBody[ei.h][fr.curInstr.Block()]) && ei.fr == fr && (!ei.indexed || ei.h.Dominates(fr.curInstr.Block())) {
 			skf := u.sortedKeyFn(ei.mt)
 			ml := ite(eq(ei.mapT, "nil"), "0", u.mapLen(st, ei.mt, ei.mapT))
 			u.fact(implies(st.pc, eq(fmt.Sprintf("(slen %s)", s), ml)))
 			u.fact(implies(st.pc, fmt.Sprintf("(forall ((%s Int)) (=> (and (<= 0 %s) (< %s (slen %s))) (= (select %s (+ (soff %s) %s)) (%s %s %s))))", j, j, j, s, arr, s, j, skf, ei.mapT, j)))
 			dom := u.mapDom(st, ei.mt, ei.mapT)
 			u.fact(implies(st.pc, fmt.Sprintf("(forall ((%s Int)) (=> (and (<= 0 %s) (< %s %s)) (select %s (%s %s %s))))", j, j, j, ml, dom, skf, ei.mapT, j)))
-			u.assume["a slice that starts empty and receives exactly one append of the key in each iteration of a complete range over a map enumerates the keys of that map, each once (recognised syntactically on the SSA of the loop)"] = true
+			if ei.indexed {
+				u.assume[idxEnumAssumption] = true
+			} else {
+				u.assume["a slice that starts empty and receives exactly one append of the key in each iteration of a complete range over a map enumerates the keys of that map, each once (recognised syntactically on the SSA of the loop)"] = true
+			}
 		}
 		delete(u.qsorts, j)
 		return &Val{K: vNone}
